@@ -21,7 +21,8 @@ VARIABLES phase,       \* "connecting" | "failed" | "auth" | "closing" | "hello"
           nfired,      \* how often it fired
           call,        \* [Calls -> "new" | "out" | "lost" | "ok" | "timeout" | "cancelled"]
           timers,      \* calls with an armed deadline
-          cb,          \* [Cbs -> "unreg" | "conn" | "explicit" | "intro" | "dropped"] where the callback is registered
+          cb,          \* [Cbs -> "unreg" | "conn" | "explicit" | "intro" | "dropped" | "off-conn" | "off-explicit" | "off-intro"]
+                       \* where the callback is registered ("off-": cancelled again, its holder still there)
           ran,         \* [Cbs -> number of times the callback ran]
           late         \* number of things that fired after the connection was closed
 
@@ -92,9 +93,21 @@ Register(x, where) ==
     /\ cb' = [cb EXCEPT ![x] = where]
     /\ UNCHANGED <<phase, idx, tried, fired, nfired, call, timers, ran, late>>
 
+(* the callback is cancelled (cancelNotifyOnDisconnect) and may be registered again on the same connection / proxy *)
+Off(w) == CASE w = "conn" -> "off-conn" [] w = "explicit" -> "off-explicit" [] w = "intro" -> "off-intro"
+On(w) == CASE w = "off-conn" -> "conn" [] w = "off-explicit" -> "explicit" [] w = "off-intro" -> "intro"
+Unregister(x) ==
+    /\ phase = "ready" /\ cb[x] \in {"conn", "explicit", "intro"}
+    /\ cb' = [cb EXCEPT ![x] = Off(@)]
+    /\ UNCHANGED <<phase, idx, tried, fired, nfired, call, timers, ran, late>>
+Reregister(x) ==
+    /\ phase = "ready" /\ cb[x] \in {"off-conn", "off-explicit", "off-intro"}
+    /\ cb' = [cb EXCEPT ![x] = On(@)]
+    /\ UNCHANGED <<phase, idx, tried, fired, nfired, call, timers, ran, late>>
+
 (* the application drops its last reference to the proxy carrying callback x *)
 DropProxy(x) ==
-    /\ phase = "ready" /\ cb[x] \in {"explicit", "intro"}
+    /\ phase = "ready" /\ cb[x] \in {"explicit", "intro", "off-explicit", "off-intro"}
     /\ cb' = [cb EXCEPT ![x] = "dropped"]
     /\ UNCHANGED <<phase, idx, tried, fired, nfired, call, timers, ran, late>>
 
@@ -118,7 +131,7 @@ Next ==
     \/ \E k \in Calls, t \in BOOLEAN : IssueCall(k, t)
     \/ \E k \in Calls : ReplyCall(k) \/ ExpireCall(k) \/ CancelCall(k)
     \/ \E x \in Cbs, w \in {"conn", "explicit", "intro"} : Register(x, w)
-    \/ \E x \in Cbs : DropProxy(x)
+    \/ \E x \in Cbs : DropProxy(x) \/ Unregister(x) \/ Reregister(x)
 
 Spec == Init /\ [][Next]_vars
 
